@@ -27,7 +27,7 @@ STATE_MEASURE = 'distinct (exported path set, query kind, queried path) at proce
 PROBES = ['sibling-prefix-both-exported', 'introspect-intermediate-path', 'introspect-fails',
           'gmo-with-descendants', 'gmo-root', 'query-in-flight-across-export',
           'query-in-flight-across-unexport', 'call-to-unexported', 'unexport-then-reexport', 'same-instance-reexported', 'property-assigned-after-export',
-          'export-over-exported-path',
+          'export-over-exported-path', 'export-call-raised', 'unexport-of-unexported-path', 'failed-export-fate-observed',
           'gmo-sibling-prefix-case']
 COMPONENTS = {
     'real': ['txdbus.objects.DBusObjectHandler (exportObject, unexportObject, getManagedObjects, '
@@ -36,7 +36,9 @@ COMPONENTS = {
     'stub': ['transport', 'daemon / remote callers (reference codec)', 'exported classes (generated)',
              'XML reading by xml.etree (independent of txdbus.introspection)'],
 }
-ASSUMPTIONS = ['unexport is only issued for exported paths (anything else is a caller error)']
+ASSUMPTIONS = ['an exportObject() call that raises (a readable property was never assigned) may leave the '
+               'object exported or not, but every remote view must then agree on which; descendants '
+               'listings (GetManagedObjects) that would include such an object are not judged']
 
 PATHS = ['/', '/a', '/a/b', '/a/bc', '/a/b/c', '/x', '/a/b/c/d', '/ab', '/a_1/b2', '/a_1', '/a/b/c/d/e/f/g/h/i',
          '/a/a', '/a/ab', '/x/xy']
@@ -91,6 +93,7 @@ def scenario(ctx):
 
     retired = {}    # path -> record of an instance that was unexported (may be exported again)
     E = {}          # path -> dict(obj, cs, props {(iface, prop): ref value})
+    E_now = E
     ever = set()
     queries = []    # dicts
     nseen = [len(rig.sent)]
@@ -127,7 +130,7 @@ def scenario(ctx):
         new_signals()
 
     def op_export():
-        free = [p for p in PATHS if p not in E]
+        free = [p for p in PATHS if p not in E and p not in uncertain]
         if E and ds.flag(0.12):
             # a different object takes over a path that is still exported
             free = sorted(E)
@@ -170,6 +173,66 @@ def scenario(ctx):
         check_announce(sigs, 'InterfacesAdded', p, cs)
         if '/a/b' in E and '/a/bc' in E:
             sim.probe('sibling-prefix-both-exported')
+
+    uncertain = {}   # path -> {'alts': set of bool still possible, 'rec': record} (failed export)
+
+    def op_export_fails():
+        # exportObject() of an object one of whose readable properties was never assigned: the
+        # call raises.  Whether the object is exported afterwards is not stated - but calls,
+        # Introspect of the object and of its ancestors must all tell the same story.
+        free = [p for p in PATHS if p not in E and p not in uncertain]
+        cands = [(cs, k) for cs, k in classes
+                 if any(acc != 'write' and ps != 'g' for d in cs.all_ifaces() for pn, ps, acc, em in d.props)]
+        if uncertain or not free or not cands:
+            return op_export()
+        p = free[ds.choose(len(free))]
+        cs, klass = cands[ds.choose(len(cands))]
+        vals = {}
+
+        def mk():
+            o = klass(p)
+            skipped = False
+            for d in cs.all_ifaces():
+                for pn, ps, acc, em in d.props:
+                    if acc != 'write' and ps != 'g' and not skipped:
+                        skipped = True
+                        continue
+                    ref, pyv = gen.prop_value(ds, ps)
+                    setattr(o, cs.attr(d.name, pn), pyv)
+                    vals[(d.name, pn)] = (ps, ref, acc)
+            return o
+        o = rig.call(mk)
+        new_signals()
+        sim.log('op', 'export-fails', p)
+        try:
+            rig.call(cl.exportObject, o)
+            raised = False
+        except Exception as e:
+            raised = True
+            sim.log('export-raised', type(e).__name__)
+        new_signals()
+        epoch[0] += 1
+        uncertain[p] = {'alts': {True, False} if raised else {True},
+                        'rec': {'obj': o, 'cs': cs, 'vals': vals}}
+        sim.probe('export-call-raised')
+
+    def op_unexport_missing():
+        # clean-up running twice: unexport of a path that is not exported implies nothing
+        cands = [p for p in PATHS if p not in E and p not in uncertain]
+        if not cands:
+            return op_unexport()
+        p = cands[ds.choose(len(cands))]
+        new_signals()
+        sim.log('op', 'unexport-missing', p)
+        try:
+            rig.call(cl.unexportObject, p)
+        except Exception as e:
+            sim.log('unexport-raised', type(e).__name__)
+        sim.probe('unexport-of-unexported-path')
+        sigs = new_signals()
+        if sigs:
+            raise Violation('C16/announce', 'signal for a path that was not exported',
+                            'unexportObject(%s), not exported, wrote %r' % (p, [s.describe() for s in sigs]))
 
     def op_unexport():
         if not E:
@@ -231,7 +294,8 @@ def scenario(ctx):
             if budget[0] > 0:
                 def op():
                     budget[0] -= 1
-                    (op_export, op_unexport, op_assign)[ds.weighted([6, 4, 1.5])]()
+                    (op_export, op_unexport, op_assign, op_unexport_missing,
+                     op_export_fails)[ds.weighted([6, 4, 1.5, 1, 0.6])]()
                 ops.append(('tree', op))
             if qbudget[0] > 0:
                 def opq():
@@ -240,7 +304,9 @@ def scenario(ctx):
                 ops.append(('query', opq))
         return {'op': ops}
 
-    def expected(q):
+    def expected(q, E=None):
+        if E is None:
+            E = E_now
         p = q['path']
         if q['kind'] == 'call':
             return ('ok',) if p in E else ('unknown-object',)
@@ -269,6 +335,16 @@ def scenario(ctx):
             if not q['judged'] and 'exp' not in q and q['end'] <= pipe_dc.base:
                 q['exp'] = expected(q)
                 q['E'] = frozenset(E)
+                if uncertain:
+                    # one alternative per possible fate of the export that raised
+                    (up, u), = uncertain.items()
+                    q['alts'] = []
+                    q['unjudgeable'] = q['kind'] == 'gmo' and (q['path'] == up or below(up, q['path']))
+                    for a in ([] if q['unjudgeable'] else sorted(u['alts'])):
+                        Ea = dict(E)
+                        if a:
+                            Ea[up] = u['rec']
+                        q['alts'].append((a, expected(q, Ea), frozenset(Ea)))
                 if q['epoch'] != epoch[0]:
                     sim.probe('query-in-flight-across-' +
                               ('export' if len(E) else 'unexport'))
@@ -282,6 +358,37 @@ def scenario(ctx):
     def judge(q, rs):
         if len(rs) != 1:
             raise Violation('C16/reply-count', q['kind'], '%d replies to one query' % len(rs))
+        if 'alts' not in q:
+            return judge1(q, rs)
+        if q['unjudgeable']:
+            return
+        (up, u), = uncertain.items()
+        fits = set()
+        first = None
+        for a, exp, Ea in q['alts']:
+            q['exp'], q['E'] = exp, Ea
+            if a:
+                cs_at[(q['serial'], up)] = u['rec']['cs']
+            else:
+                cs_at.pop((q['serial'], up), None)
+            try:
+                judge1(q, rs)
+                fits.add(a)
+            except Violation as v:
+                first = first or v
+        if not fits:
+            raise first
+        if not (u['alts'] & fits):
+            raise Violation('C16/inconsistent-views', q['kind'],
+                            'after exportObject(%s) raised, earlier answers imply it is %s, the '
+                            'answer to %s on %s implies it is %s'
+                            % (up, 'exported' if True in u['alts'] else 'not exported', q['kind'],
+                               q['path'], 'exported' if True in fits else 'not exported'))
+        if len(fits) == 1:
+            sim.probe('failed-export-fate-observed')
+        u['alts'] &= fits
+
+    def judge1(q, rs):
         r = rs[0]
         exp = q['exp']
         p = q['path']
@@ -374,10 +481,10 @@ def scenario(ctx):
     # remember the class of each path at the processing instant
     orig_expected = expected
 
-    def expected_wrap(q):
-        for p, rec in E.items():
+    def expected_wrap(q, Ex=None):
+        for p, rec in (E if Ex is None else Ex).items():
             cs_at[(q['serial'], p)] = rec['cs']
-        return orig_expected(q)
+        return orig_expected(q, Ex)
     expected = expected_wrap      # noqa: F811
 
     op_export()
